@@ -14,8 +14,9 @@ CHECK = {
              "level 8/16 directions 3(/12) degrees off the tangent plane of the ORACLE's normal)} "
              "restricted to the documented call order, <= 2 direction changes per history, with "
              "snapshot/restore of the real navigation state and sharing of identical states; roots = "
-             "start lattice 2^3/3^3 x 3/5 directions + the oracle-placed chain representatives (<= 10 "
-             "per geometry in quick) x 1/2 directions, visited round-robin over the geometries; at "
+             "the oracle-placed chain representatives (<= 10 per geometry in quick) x 1/2 directions + "
+             "start lattice 2^3/3^3 x 3/2 directions, visited round-robin over the geometries; a "
+             "state whose position an internal move put within 10 tol of a surface is not expanded; at "
              "every new state the used slot is re-initialised at the root and must reproduce the root "
              "state. Oracle = point location from the OrangeInput definition (long double surfaces, "
              "own RPN logic, own daughter/transform/array descent). non-trivial = ray with >= 2 "
